@@ -35,7 +35,7 @@ func factsC19(r *Repo) []Fact {
 			case *ast.RangeStmt:
 				// for _, v := range <slice of vs> { if s, ok := v.(streamReader); ok { s.close() } }
 				src := exprString(x.X)
-				if (strings.HasPrefix(src, "vs[") || src == "unused" || src == "surplus") && containsMethodCall(x.Body, "close") {
+				if (strings.HasPrefix(src, "vs[") || src == "unused" || src == "surplus") && c19Closes(cp, x.Body) {
 					closes = true
 				}
 			}
@@ -47,13 +47,19 @@ func factsC19(r *Repo) []Fact {
 	replaced := false
 	if fd != nil {
 		ast.Inspect(fd.Body, func(n ast.Node) bool {
+			// or: <close-if-stream helper>(writeChannelValues[next][t.nodeKey]) as a statement
+			if es, ok := n.(*ast.ExprStmt); ok {
+				if c, ok := es.X.(*ast.CallExpr); ok && len(c.Args) == 1 && exprString(c.Args[0]) == "writeChannelValues[next][t.nodeKey]" && c19Closes(cp, es) {
+					replaced = true
+				}
+			}
 			is, ok := n.(*ast.IfStmt)
 			if !ok || is.Init == nil {
 				return true
 			}
 			if as, ok := is.Init.(*ast.AssignStmt); ok && len(as.Rhs) == 1 {
 				rhs := exprString(as.Rhs[0])
-				if strings.HasPrefix(rhs, "writeChannelValues[next][t.nodeKey].(") && strings.Contains(rhs, "streamReader") && containsMethodCall(is.Body, "close") {
+				if strings.HasPrefix(rhs, "writeChannelValues[next][t.nodeKey].(") && strings.Contains(rhs, "streamReader") && c19Closes(cp, is.Body) {
 					replaced = true
 				}
 			}
@@ -65,15 +71,43 @@ func factsC19(r *Repo) []Fact {
 	}
 	// skippedChannelClosesValues: dagChannel.reportValues closes the streams when ch.Skipped
 	if rfd, _ := cp.Func("dagChannel", "reportValues"); rfd != nil {
+		// if ch.Skipped { for _, v := range <the parameter> { <close v> } ... }: the values that
+		// ARRIVE are closed (ranging over anything else, e.g. the values already held, does not count)
 		okc := false
+		param := ""
+		if rfd.Type.Params != nil && len(rfd.Type.Params.List) == 1 && len(rfd.Type.Params.List[0].Names) == 1 {
+			param = rfd.Type.Params.List[0].Names[0].Name
+		}
 		for _, st := range rfd.Body.List {
-			if is, ok := st.(*ast.IfStmt); ok && exprString(is.Cond) == "ch.Skipped" && containsMethodCall(is.Body, "close") {
-				okc = true
+			if is, ok := st.(*ast.IfStmt); ok && exprString(is.Cond) == "ch.Skipped" {
+				for _, bs := range is.Body.List {
+					if rs, ok := bs.(*ast.RangeStmt); ok && param != "" && exprString(rs.X) == param && c19Closes(cp, rs.Body) {
+						okc = true
+					}
+				}
 			}
 		}
-		out = append(out, boolFact("skippedChannelClosesValues", okc, "compose/dag.go reportValues: streams handed to a skipped channel are closed"))
+		out = append(out, boolFact("skippedChannelClosesValues", okc, "compose/dag.go reportValues: the streams handed to a skipped channel (a range over the parameter) are closed"))
 	} else {
 		out = append(out, unknownFact("skippedChannelClosesValues", "Bool", "false", "compose/dag.go", "dagChannel.reportValues not found"))
+	}
+	// skipReleasesStored: dagChannel.reportSkip closes the streams the channel already holds
+	// (range over ch.Values) under a condition that mentions allSkipped
+	if sfd, _ := cp.Func("dagChannel", "reportSkip"); sfd != nil {
+		rel := false
+		ast.Inspect(sfd.Body, func(n ast.Node) bool {
+			if is, ok := n.(*ast.IfStmt); ok && strings.Contains(exprString(is.Cond), "allSkipped") {
+				for _, bs := range is.Body.List {
+					if rs, ok := bs.(*ast.RangeStmt); ok && exprString(rs.X) == "ch.Values" && c19Closes(cp, rs.Body) {
+						rel = true
+					}
+				}
+			}
+			return true
+		})
+		out = append(out, boolFact("skipReleasesStored", rel, "compose/dag.go reportSkip: when the channel turns skipped the streams it already holds (ch.Values) are closed"))
+	} else {
+		out = append(out, unknownFact("skipReleasesStored", "Bool", "false", "compose/dag.go", "dagChannel.reportSkip not found"))
 	}
 	if fd == nil {
 		out = append(out, unknownFact("closesSurplus", "Bool", "false", "compose/graph_run.go", "resolveCompletedTasks not found"))
@@ -88,7 +122,7 @@ func factsC19(r *Repo) []Fact {
 	if ufd, _ := cp.Func("channelManager", "updateValues"); ufd != nil {
 		ast.Inspect(ufd.Body, func(n ast.Node) bool {
 			if is, ok := n.(*ast.IfStmt); ok && is.Else != nil {
-				if as, ok := is.Init.(*ast.AssignStmt); ok && len(as.Rhs) == 1 && exprString(as.Rhs[0]) == "dps[from]" && containsMethodCall(is.Else, "close") {
+				if as, ok := is.Init.(*ast.AssignStmt); ok && len(as.Rhs) == 1 && exprString(as.Rhs[0]) == "dps[from]" && c19Closes(cp, is.Else) {
 					cl = true
 				}
 			}
@@ -98,8 +132,111 @@ func factsC19(r *Repo) []Fact {
 	} else {
 		out = append(out, unknownFact("closesNonDataValues", "Bool", "false", "compose/graph_manager.go", "updateValues not found"))
 	}
+	out = append(out, factC19MissingDps(cp))
 	out = append(out, factsC19Merge(r)...)
 	return out
+}
+
+// missingDpsArm: what channelManager.updateValues does for a target that has no entry in
+// c.dataPredecessors (no data edge ends at it; the end node of a data-less Workflow branch that
+// takes no input of its own). The values sent to such a target must still reach the arm that
+// closes streams from non-data senders.
+//
+//	dps, ok := c.dataPredecessors[target]; if !ok { dps = <empty map | nil> }   -> "empty-set"
+//	dps := c.dataPredecessors[target]   /  dps, _ := ...                         -> "nil-map"
+//	... if !ok { continue }                                                      -> "skip-target"
+//	... if !ok { return ... }                                                    -> "return"
+//
+// anything else renders "?" (no theorem accepts it).
+func factC19MissingDps(cp *Pkg) Fact {
+	where := "compose/graph_manager.go updateValues: the statement after `dps, ok := c.dataPredecessors[target]`"
+	ufd, _ := cp.Func("channelManager", "updateValues")
+	if ufd == nil || ufd.Body == nil {
+		return unknownFact("missingDpsArm", "String", "\"\"", where, "updateValues not found")
+	}
+	arm, found := "?", 0
+	var visit func(list []ast.Stmt)
+	visit = func(list []ast.Stmt) {
+		for i, st := range list {
+			switch x := st.(type) {
+			case *ast.AssignStmt:
+				if len(x.Rhs) != 1 {
+					continue
+				}
+				ie, ok := x.Rhs[0].(*ast.IndexExpr)
+				if !ok || !strings.HasSuffix(exprString(ie.X), ".dataPredecessors") {
+					continue
+				}
+				found++
+				if len(x.Lhs) == 1 {
+					arm = "nil-map"
+					continue
+				}
+				if len(x.Lhs) != 2 {
+					continue
+				}
+				okName := exprString(x.Lhs[1])
+				dpsName := exprString(x.Lhs[0])
+				if okName == "_" {
+					arm = "nil-map"
+					continue
+				}
+				if i+1 >= len(list) {
+					continue
+				}
+				is, isIf := list[i+1].(*ast.IfStmt)
+				if !isIf || is.Init != nil || is.Else != nil || exprString(is.Cond) != "!"+okName {
+					continue
+				}
+				arm = c19MissingArm(is.Body, dpsName)
+			case *ast.RangeStmt:
+				visit(x.Body.List)
+			case *ast.ForStmt:
+				visit(x.Body.List)
+			case *ast.BlockStmt:
+				visit(x.List)
+			}
+		}
+	}
+	visit(ufd.Body.List)
+	if found != 1 {
+		arm = "?"
+	}
+	return Fact{Name: "missingDpsArm", Type: "String", Value: leanStr(arm), Where: where}
+}
+
+func c19MissingArm(body *ast.BlockStmt, dpsName string) string {
+	if body == nil || len(body.List) != 1 {
+		return "?"
+	}
+	switch s := body.List[0].(type) {
+	case *ast.BranchStmt:
+		if s.Tok.String() == "continue" && s.Label == nil {
+			return "skip-target"
+		}
+	case *ast.ReturnStmt:
+		return "return"
+	case *ast.AssignStmt:
+		if len(s.Lhs) == 1 && len(s.Rhs) == 1 && exprString(s.Lhs[0]) == dpsName && s.Tok.String() == "=" {
+			switch r := s.Rhs[0].(type) {
+			case *ast.CompositeLit:
+				if _, isMap := r.Type.(*ast.MapType); isMap && len(r.Elts) == 0 {
+					return "empty-set"
+				}
+			case *ast.Ident:
+				if r.Name == "nil" {
+					return "empty-set"
+				}
+			case *ast.CallExpr:
+				if exprString(r.Fun) == "make" && len(r.Args) >= 1 {
+					if _, isMap := r.Args[0].(*ast.MapType); isMap {
+						return "empty-set"
+					}
+				}
+			}
+		}
+	}
+	return "?"
 }
 
 // the merged reader (schema/stream.go multiStreamReader): the shape of the loop in `close`
@@ -230,6 +367,29 @@ func c19Renamed(e ast.Expr, ren map[string]string) string {
 		return c19Renamed(v.Fun, ren) + "(" + strings.Join(as, ",") + dots + ")"
 	}
 	return "?"
+}
+
+// c19Closes: the node closes a stream — it contains a `.close()` method call, or a call of a
+// receiver-less function of the package whose body contains one (a close-if-stream helper).
+func c19Closes(cp *Pkg, n ast.Node) bool {
+	if n == nil {
+		return false
+	}
+	if containsMethodCall(n, "close") {
+		return true
+	}
+	found := false
+	ast.Inspect(n, func(x ast.Node) bool {
+		if c, ok := x.(*ast.CallExpr); ok {
+			if id, ok := c.Fun.(*ast.Ident); ok && len(c.Args) == 1 {
+				if fd, _ := cp.Func("", id.Name); fd != nil && fd.Body != nil && containsMethodCall(fd.Body, "close") {
+					found = true
+				}
+			}
+		}
+		return !found
+	})
+	return found
 }
 
 func containsMethodCall(n ast.Node, method string) bool {
